@@ -449,7 +449,6 @@ package composite
 //@   requires-assumed forall i int :: 0 <= i && i < len(latest.revision.Children) ==> (forall j int :: 0 <= j && j < len(latest.revision.Children[i].Names) ==> latest.desiredChildMap.FindGroupKindName(schema.GroupKind{Group: latest.revision.Children[i].APIGroup, Kind: latest.revision.Children[i].Kind}, latest.revision.Children[i].Names[j]) != nil)
 //@   safety C13,C07
 //@   failstop [C07,C08] ApplyUpdate, childStatusCheck
-//@   bind call FindGroupKindName: child
 //@   bind call GetObservedGeneration: og, ogFound, ogErr
 //@   bind call ApplyUpdate: updated, auErr
 //@   bind call DeepEqual: same
@@ -461,6 +460,10 @@ package composite
 //@   invariant loop 1 [C07]: count(childStatusCheck) == count(ApplyUpdate)
 //@   invariant loop 2 [C07]: count(childStatusCheck) == count(ApplyUpdate)
 //@   ensures [C07] err == nil ==> count(childStatusCheck) == count(ApplyUpdate)
+//@   bind call childStatusCheck: cscErr
+//@   // gate completeness (per call): the gate refuses only for one of the documented reasons - a child that was observed, is up to
+//@   // date, has (RollingInPlace) observed its generation and passes its status checks never makes it wait
+//@   ensures [C08,C07] err != nil ==> child == nil || auErr != nil || !same || ogErr != nil || (og > 0 && og < child.GetGeneration()) || cscErr != nil
 
 // claims (ControllerRevision.Children[].Names) and the keys of a revision's desiredChildMap are names relative to the parent
 //@ pred relativeClaims(rev) = forall i int :: 0 <= i && i < len(rev.Children) ==> (forall j int :: 0 <= j && j < len(rev.Children[i].Names) ==> ufb_relativeKey(rev.Children[i].Names[j]))
@@ -506,3 +509,18 @@ package composite
 //@   invariant loop 4 [C07,C13]: validPRs(parentRevisions) && latest.syncResult != nil && latest.syncResult.Status != nil && called(parentController.shouldContinueRolling) && gateErr == nil && !called(SetCondition)
 //@   ensures [C07] err == nil ==> count(SetCondition) == 1
 //@   ensures [C07] count(parentController.shouldContinueRolling) <= 1
+
+// ---- C08: drained revisions are dropped (their ControllerRevision is then deleted by manageRevisions) ----
+
+//@ func parentRevision.countChildren(pr) (n)
+//@   pure
+//@   trusted sums the lengths of the claim lists (a loop over a slice); used as a mathematical function
+
+//@ func pruneParentRevisions(parentRevisions) (result)
+//@   requires len(parentRevisions) >= 1
+//@   requires-assumed forall j int :: 0 <= j && j < len(parentRevisions) ==> parentRevisions[j] != nil
+//@   safety C13,C08
+//@   bind call parentRevision.countChildren: cnt
+//@   // the latest revision is always kept (first); any other revision is kept only while it still claims a child
+//@   at append#1(s, els) [C08]: len(els) == 1 && els[0] == parentRevisions[0] && len(s) == 0
+//@   at append#2(s, els) [C08,C09]: len(els) == 1 && cnt > 0
